@@ -91,9 +91,11 @@ def build_harness():
         log("built harness in %.1fs" % (time.time() - t0))
         # prune old builds
         bdir = os.path.join(CACHE, "build")
-        olds = sorted((os.path.getmtime(os.path.join(bdir, d)), d) for d in os.listdir(bdir) if d != key)
-        for _, d in olds[:-2]:
-            shutil.rmtree(os.path.join(bdir, d), ignore_errors=True)
+        # prune builds that are old enough not to be in use by a concurrent check (disk space is limited)
+        now = time.time()
+        for d in os.listdir(bdir):
+            if d != key and now - os.path.getmtime(os.path.join(bdir, d)) > 3 * 3600:
+                shutil.rmtree(os.path.join(bdir, d), ignore_errors=True)
         return out, key
 
 
@@ -116,7 +118,18 @@ def tlc(workdir, module, cfg, workers=1, timeout=600, extra=(), heap=None):
     shutil.rmtree(meta, ignore_errors=True)
     cmd = ["timeout", str(timeout), "tlc", "-workers", str(workers), "-metadir", meta, "-config", cfg] + list(extra) + [module]
     env = dict(os.environ)
+    if heap:
+        # cap the JVM heap (default would be 25% of RAM per JVM: concurrent checks would starve each other)
+        env["JAVA_TOOL_OPTIONS"] = (env.get("JAVA_TOOL_OPTIONS", "") + " -Xmx" + heap).strip()
     return run(cmd, cwd=workdir, env=env, timeout=timeout + 30)
+
+
+def tlc_retry(workdir, module, cfg, **kw):
+    rc, out, wall = tlc(workdir, module, cfg, **kw)
+    if rc != 0 and "states generated" not in out and "Error:" not in out:
+        time.sleep(5)
+        rc, out, wall = tlc(workdir, module, cfg, **kw)
+    return rc, out, wall
 
 
 def stage_spec(workdir):
